@@ -118,6 +118,8 @@ class BitEval:
             return self.vec(e[-1] if k != "cast" else e[2])
         if k == "field" and e[2] == "0":
             return self.vec(e[1])
+        if k == "with" and e[2] == ("f", "0"):
+            return self.vec(e[3])          # a newtype whose only field was assigned
         if k == "bin":
             op = e[1]
             if op in ("BitAnd", "BitOr", "BitXor"):
